@@ -101,6 +101,8 @@ def _check_program(t, prog, depth, wrappers=WRAPPERS):
     for w in wrappers:
         wrap = _wrap(w)
         res = G.differential(lambda env: f(env), lambda env: wrap(f(env)), depth)
+        if res.get("unconfirmed"):
+            t.extra["unconfirmed_mismatches"] = t.extra.get("unconfirmed_mismatches", 0) + res["unconfirmed"]
         for script, oa in res["obs"]:
             t.case((prog, w, script), oa.key(), nt_prog or G.script_nontrivial(script), f"{w}:{oa.kind()}", steps=2 * len(script), evaluations=2)
         for script, oa, ob in res["mismatches"]:
